@@ -282,7 +282,7 @@ template <typename F> static bool eb_accept(const V3<F>& got, const EB ref[3], O
 }
 // pipelines: kind 0 identity (the clip cube itself), 1 ortho, 2 frustum, 3 perspective; all matrices of the depth convention under test
 static const double PNF[6][2] = {{0.1, 10}, {1, 2}, {1, 1000}, {0.01, 1e5}, {2e7, 1e8}, {1e-5, 1e-2}};   // the last two: volumes whose homogeneous w = 1/depth is far below / above 1 (absolute thresholds on w show there)
-static const double PGRID[9] = {-1, -0.75, -0.5, -0.25, 0, 0.25, 0.5, 0.75, 1}, PDEPTH[5] = {0, 0.1, 0.25, 0.5, 1};   // quick uses the sub-grid {-1,-.5,0,.75,1} x {0,.25,1}
+static const double PGRID[9] = {-1, -0.75, -0.5, -0.25, 0, 0.25, 0.5, 0.75, 1}, PDEPTH[6] = {0, 0.1, 0.25, 0.5, 1, 1.25};   // quick uses the sub-grid {-1,-.5,0,.75,1} x {0,.25,1,1.25}; 1.25 = a point beyond the far plane (the maps are projective maps of all space, not of the volume only)
 template <typename F, typename U, bool ZO> static void op_project(const Case& c, Outcome& o) {
   typedef EA<F> E; typedef glm::vec<4, U, glm::defaultp> VP;
   const int kind = (int)c.w[0], nfi = (int)c.w[1], mdl = (int)c.w[2], hand = (int)c.w[3]; const bool lh = hand == 1;
@@ -404,8 +404,8 @@ template <typename F> static void reg(Engine& E) {
   // project / unProject / pickMatrix
   const Domain VXY = ints("viewport origin {0,10,-5}", {0, 10, -5}), VW = ints("viewport width {1,640,1920}", {1, 640, 1920}), VH = ints("viewport height {1,480,1080}", {1, 480, 1080});
   const Domain PIPE = product("KIND{cube,ortho,frustum,perspective}xNF{(.1,10),(1,2),(1,1e3),(.01,1e5),(2e7,1e8),(1e-5,1e-2)}xMODEL{I,TRS,2*TRS,P*TRS with proj=I}xHAND{RH,LH}", {range("KIND", 0, 4, true), range("NF", 0, 6, true), range("MODEL", 0, 4, true), range("HAND", 0, 2, true)});
-  const Domain PTS = product("POINT{-1,-.5,0,.75,1}^2x{0,.25,1}", {ints("A", {0, 2, 4, 7, 8}), ints("B", {0, 2, 4, 7, 8}), ints("D", {0, 2, 4})});
-  const Domain PTT = product("POINT{-1,-.75,..,1}^2x{0,.1,.25,.5,1}", {range("A", 0, 9, true), range("B", 0, 9, true), range("D", 0, 5, true)});
+  const Domain PTS = product("POINT{-1,-.5,0,.75,1}^2x{0,.25,1,1.25}", {ints("A", {0, 2, 4, 7, 8}), ints("B", {0, 2, 4, 7, 8}), ints("D", {0, 2, 4, 5})});
+  const Domain PTT = product("POINT{-1,-.75,..,1}^2x{0,.1,.25,.5,1,1.25}", {range("A", 0, 9, true), range("B", 0, 9, true), range("D", 0, 6, true)});
   const Domain PD = product("PIPELINExPOINTxVIEWPORT", {PIPE, PTS, VXY, VXY, VW, VH}), PDT = product("PIPELINExPOINTxVIEWPORT (thorough)", {PIPE, PTT, VXY, VXY, VW, VH});
   const std::vector<std::string> KC = {"clip cube (identity)", "ortho", "frustum", "perspective"};
   add("projectNO/unProjectNO (+ unsuffixed dispatch), viewport of T", op_project<F, F, false>, PD, PDT, KC);
